@@ -6,7 +6,8 @@ correspondence: for every `*_seq` function of prysm.polynomials
     random gapped lists up to order 40, and coordinate shapes (), (5,), (3,4), (4,4), (len(ns),3), (2,3,4);
   * the Lean model of the control flow (`Model.C08.sweep`, Drivers/C08.lean) on the same order lists, Float and exact Rat
     (prysm run on Fraction object arrays where the code path has no float);
-  * two-index families (zernike_nm_seq, zernike_nm_der_seq, Q2d_seq, xy_seq): random pair lists in random order with repeats
+  * two-index families (zernike_nm_seq, zernike_nm_der_seq with norm=True and norm=False, Q2d_seq, xy_seq): pair lists in random
+    order with repeats, both signs of the same (n,|m|) in one request, the same |m| at several n (shared per-|m| tables)
     vs the scalar functions, and the per-|m| table model (`tableSeq`);
   * the NumPy broadcasting rule of the model (`bcShape`) vs `np.broadcast_shapes` on the shapes that occur;
   * malformed stream: an empty order list is rejected by implementation and model alike.
@@ -18,7 +19,7 @@ import numpy as np
 from harness import common as C
 
 RULE = ('order lists: every non-empty ascending subset of {0..7} (255, exhaustive) + seeded random strictly ascending lists with gaps '
-        'up to order 40; pair lists for two-index families: seeded random, random order, repeats allowed; coordinate shapes (), (5,), '
+        'up to order 40; pair lists for two-index families: seeded random, random order, exact repeats, both signs (n,m),(n,-m) in one request, the same |m| at several n, each Zernike list with norm=True and norm=False; coordinate shapes (), (5,), '
         '(3,4), (4,4), (len(ns),3) [leading dimension = number of orders], (2,3,4); points dyadic rationals inside the domain; a case '
         '= (family, parameters, order list, coordinate shape); non-trivial unless the list is the singleton [0]; distinct = distinct '
         'case tuples')
@@ -120,8 +121,10 @@ def random_lists(rng, count, maxn=40):
 
 
 def pair_lists(rng, count, kind):
+    """random pair lists; for the families that share a per-|m| table between (n, m) and (n, -m) (Zernike, 2D-Q) the lists are
+    built to stress the sharing: both signs of the same (n, |m|), exact repeats, the same |m| at several n, random order"""
     out = []
-    for _ in range(count):
+    for it in range(count):
         ln = int(rng.integers(1, 9))
         prs = []
         for _ in range(ln):
@@ -133,7 +136,22 @@ def pair_lists(rng, count, kind):
                 prs.append((int(rng.integers(0, 9)), int(rng.integers(-5, 6))))
             else:
                 prs.append((int(rng.integers(0, 7)), int(rng.integers(0, 7))))
-        if rng.random() < 0.5 and len(prs) > 1:
+        if kind in ('zern', 'q2d'):
+            mode = it % 4
+            base = list(prs)
+            if mode >= 1:                       # both signs of (n, |m|) in one request
+                for (n, m) in base[:3]:
+                    if m != 0:
+                        prs.append((n, -m))
+            if mode >= 2:                       # the same |m| at other radial orders (shared table, different rows)
+                for (n, m) in base[:2]:
+                    prs.append((n + 2, m))
+                    prs.append((n + 4, -m))
+            if mode == 3:                       # exact repeats, then shuffle
+                prs = prs + prs[:2]
+            if mode >= 1:
+                prs = [prs[i] for i in rng.permutation(len(prs))]
+        elif rng.random() < 0.5 and len(prs) > 1:
             prs.append(prs[0])       # a repeat
         out.append(prs)
     return out
@@ -230,10 +248,16 @@ def correspondence(ctx):
                 a = _coords(rng, lay, len(prs), -2 if isxy else 0, 2 if isxy else 1)
                 b = _coords(rng, lay, len(prs), -2, 2) if isxy else _coords(rng, lay, len(prs), -3, 3)
             case = {'family': kind, 'pairs': [list(q) for q in prs], 'shape': list(a.shape), 'layout': lay if kind != 'xy_grid' else 'meshgrid'}
-            ctx.case(f'pairs:{kind}', case, nontrivial=len(prs) > 1, tag=case['layout'])
-            d = pairs_vs_loop(p, kind, prs, a, b)
-            if d:
-                ctx.pred_fail(f'pairs:{kind}', case, d)
+            norms = (True, False) if kind.startswith('zern') else (True,)
+            for norm in norms:
+                if kind.startswith('zern'):
+                    case = {**case, 'norm': norm}
+                both = any((n, -m) in prs for (n, m) in prs if m != 0)
+                ctx.case(f'pairs:{kind}', case, nontrivial=len(prs) > 1,
+                         tag=f"{case['layout']}/{'norm' if norm else 'raw'}/{'pm-pairs' if both else 'one-sign'}")
+                d = pairs_vs_loop(p, kind, prs, a, b, norm=norm)
+                if d:
+                    ctx.pred_fail(f'pairs:{kind}', case, d)
             if kind == 'zern' and li % 2 == 0:
                 r0 = float(dyadic(rng, 0, 1, ()))
                 tp = [((n - abs(m)) // 2, abs(m)) for n, m in prs]
@@ -284,19 +308,30 @@ def correspondence(ctx):
             ctx.disagree('malformed:empty', {'family': fam}, 'accepted an empty order list', 'model: none')
 
 
-def pairs_vs_loop(p, kind, prs, a, b):
+def pairs_vs_loop(p, kind, prs, a, b, norm=True):
+    a0, b0 = np.array(a, copy=True), np.array(b, copy=True)
+    d = _pairs_vs_loop(p, kind, prs, a, b, norm)
+    if d is None and not (np.array_equal(a, a0) and np.array_equal(b, b0)):
+        return f'{kind} seq modified its coordinate arguments in place'
+    return d
+
+
+def _pairs_vs_loop(p, kind, prs, a, b, norm=True):
     try:
         if kind == 'zern':
-            out = np.asarray(p.zernike_nm_seq(prs, a, b))
-            ref = np.array([p.zernike_nm(n, m, a, b) for n, m in prs])
+            out = np.asarray(p.zernike_nm_seq(prs, a, b, norm=norm))
+            ref = np.array([p.zernike_nm(n, m, a, b, norm=norm) for n, m in prs])
         elif kind == 'zern_der':
             aa = np.clip(a, 1 / 64, 1)
-            out = np.asarray(p.zernike_nm_der_seq(prs, aa, b))
-            ref = np.array([np.array(p.zernike_nm_der(n, m, aa, b)) for n, m in prs])
+            out = np.asarray(p.zernike_nm_der_seq(prs, aa, b, norm=norm))
+            ref = np.array([np.array(p.zernike_nm_der(n, m, aa, b, norm=norm)) for n, m in prs])
             want = (len(prs), 2, *np.shape(a))
             if out.shape != want:
                 return f'zernike_nm_der_seq returned shape {out.shape}, expected {want}'
-            return None if close(out, ref, 1e-10) else 'zernike_nm_der_seq differs from zernike_nm_der mode for mode'
+            if close(out, ref, 1e-10):
+                return None
+            bad = [list(prs[i]) for i in range(len(prs)) if not close(out[i], ref[i], 1e-10)]
+            return f'zernike_nm_der_seq(norm={norm}) differs from zernike_nm_der for pairs {bad[:4]} (request {[list(q) for q in prs][:8]})'
         elif kind == 'q2d':
             out = np.asarray(p.Q2d_seq(prs, a, b))
             ref = np.array([p.Q2d(n, m, a, b) * np.ones(np.shape(a)) for n, m in prs])
@@ -317,7 +352,7 @@ def pairs_vs_loop(p, kind, prs, a, b):
         return f'{kind} seq returned shape {out.shape}, expected {want}'
     if not close(out, ref, 1e-10):
         bad = [list(prs[i]) for i in range(len(prs)) if not close(out[i], ref[i], 1e-10)]
-        return f'{kind} seq differs from the single-mode function for pairs {bad[:4]}'
+        return f'{kind} seq{"" if norm else "(norm=False)"} differs from the single-mode function for pairs {bad[:4]}'
     return None
 
 
@@ -350,17 +385,19 @@ def search(ctx, hints):
                 d = seq_vs_loop(p, fam, plist[0], ns, x)
                 if d:
                     return {'item': f'seq:{fam}', 'input': {'family': fam, 'params': list(plist[0]), 'ns': ns, 'shape': list(s)}, 'detail': d}
-    for prs in ([(0, 0)], [(1, 1)], [(0, 1)], [(1, 0)], [(2, 0), (1, 1)], [(2, 2), (1, -1), (2, 2)], [(3, 1), (0, 0), (2, -2)]):
+    for prs in ([(0, 0)], [(1, 1)], [(0, 1)], [(1, 0)], [(2, 0), (1, 1)], [(1, 1), (1, -1)], [(1, -1), (1, 1)], [(2, 2), (2, -2)],
+                [(1, 1), (1, 1)], [(2, 2), (1, -1), (2, 2)], [(3, 1), (0, 0), (2, -2)], [(1, 1), (3, 1), (3, -1), (1, -1)],
+                [(4, 1), (4, -1), (5, 1), (2, -1)], [(2, 2), (4, 2), (4, -2), (2, -2), (4, 2)]):
         for shp in [(), (3,), (2, 3)]:
-            for kind in ('zern', 'zern_der', 'q2d', 'xy', 'xy_default'):
+            for kind, norm in (('zern', True), ('zern', False), ('zern_der', True), ('zern_der', False), ('q2d', True), ('xy', True), ('xy_default', True)):
                 pr = [(abs(a), abs(b)) for a, b in prs] if kind.startswith('xy') else [q for q in prs if kind == 'q2d' or (abs(q[1]) <= q[0] and (q[0] - q[1]) % 2 == 0)]
                 if not pr:
                     continue
                 a = _det_coords(shp, 0.1, 0.9)
                 b = _det_coords(shp, -0.8, 0.7)
-                d = pairs_vs_loop(p, kind, pr, a, b)
+                d = pairs_vs_loop(p, kind, pr, a, b, norm=norm)
                 if d:
-                    return {'item': f'pairs:{kind}', 'input': {'family': kind, 'pairs': [list(q) for q in pr], 'shape': list(shp)}, 'detail': d}
+                    return {'item': f'pairs:{kind}', 'input': {'family': kind, 'pairs': [list(q) for q in pr], 'shape': list(shp), 'norm': norm}, 'detail': d}
     return None
 
 
@@ -380,7 +417,7 @@ def replay(inp):
         else:
             a = _det_coords(shp, 0.1, 0.9)
             b = _det_coords(shp, -0.8, 0.7)
-        d = pairs_vs_loop(p, kind, [tuple(q) for q in c['pairs']], a, b)
+        d = pairs_vs_loop(p, kind, [tuple(q) for q in c['pairs']], a, b, norm=bool(c.get('norm', True)))
     elif fam in FAMS:
         lo, hi = FAMS[fam][3]
         k = tuple(c.get('params', FAMS[fam][2][0]))
